@@ -289,7 +289,13 @@ def run_case(case):
                         '%s/resources' % k)
                 else:
                     for rd, rows in zip(wd['resources'], exp_rows):
-                        nfile = iolab.count_data_rows(rd, w.read(rd['path']))
+                        try:
+                            nfile = iolab.count_data_rows(rd, w.read(rd['path']))
+                        except Exception as e:
+                            add('dump_unreadable', 'dumped file %s cannot be read with the format the descriptor records '
+                                '(%d rows in the stream): %s: %s' % (rd['path'], len(rows), type(e).__name__, str(e)[:120]),
+                                '%s/unreadable_file' % k)
+                            continue
                         if nfile != len(rows):
                             add('dump_rows', 'dumped file of %s holds %d rows, the stream has %d'
                                 % (rd['name'], nfile, len(rows)), '%s/row_count' % k)
